@@ -96,7 +96,7 @@ def run_mode(mode, repo, out):
     if key in _results:
         return dict(_results[key], cached=True)
     cpath = os.path.join(out, "modecache", f"{mode}-{key[1]}.json")
-    if mode == "system" and os.path.exists(cpath) and time.time() - os.path.getmtime(cpath) < 3600 \
+    if mode in ("system", "cli") and os.path.exists(cpath) and time.time() - os.path.getmtime(cpath) < 3600 \
             and not os.environ.get("VERIF_NO_CACHE"):
         try:
             d = json.load(open(cpath))
@@ -106,7 +106,7 @@ def run_mode(mode, repo, out):
             pass
     d = _run_mode(mode, repo, out)
     _results[key] = d
-    if mode == "system":
+    if mode in ("system", "cli"):
         os.makedirs(os.path.dirname(cpath), exist_ok=True)
         tmp = cpath + ".%d.tmp" % os.getpid()
         json.dump(d, open(tmp, "w"))
@@ -115,6 +115,9 @@ def run_mode(mode, repo, out):
 
 
 def _run_mode(mode, repo, out):
+    if mode == "cli":
+        import cli_mode
+        return cli_mode.run(repo, out)
     exe = build(repo, out)
     t0 = time.time()
     argv = [exe, mode]
